@@ -161,6 +161,17 @@ def match_known(o: Obligation, known: list[dict]) -> dict | None:
     return None
 
 
+def verdict(chk: Checker) -> tuple[int, list[tuple[str, str]]]:
+    """exit code the obligations of ``chk`` lead to, without printing or writing anything, and the (rule, function)
+    pairs of the violations that are not recorded findings (constructs are left out: they are spelt differently on a
+    rewritten tree)"""
+    known = load_known()
+    new = [o for o in chk.obligations if not o.ok and not o.undecided and match_known(o, known) is None]
+    und = [o for o in chk.obligations if not o.ok and o.undecided]
+    rc = 1 if new else (2 if und else 0)
+    return rc, sorted({(o.rule, o.func) for o in (new or und)})
+
+
 def finish(chk: Checker, t0: float, seed: int, extra_cov: dict | None = None) -> int:
     """Print the verdict, write evidence, return the exit code."""
     known = load_known()
